@@ -1,9 +1,37 @@
 (* Property C18 — symbolized callables keep Python call semantics.
-   Only statements and [exact]; proofs live in Proofs/Binding*.v. *)
-From PG Require Import Common.Tactics Model.Binding Proofs.BindingProofs.
+   Only statements and [exact]; definitions are in Model/Binding.v, proofs in Proofs/Binding*.v. *)
+From PG Require Import Common.Tactics Model.Binding Proofs.BindingMaps Proofs.BindingProofs.
 From Coq Require Import NArith.
 Local Open Scope N_scope.
 
-Theorem C18_clone_state : forall st, clone_state st = st.
-Proof. exact clone_keeps_state. Qed.
-Print Assumptions C18_clone_state.
+(* Calling the functor = the language rule applied to the effective arguments.
+   Any signature with distinct parameter names; any construction call (positional, keyword, *args
+   by overflow or by name, surplus, unknown and duplicate arguments), any sequence of later
+   bindings of acceptable names, any call whose keywords are distinct and do not use the name of
+   *args, any setting of override_args / ignore_extra_args at construction and at call time:
+   the functor pipeline (Functor.__init__, _on_change, _parse_call_time_overrides, the call of the
+   wrapped function) returns exactly the bound arguments, or the TypeError, that [py_bind] gives for
+   the direct call with the merged arguments. *)
+Theorem C18_call_equiv : forall q s ctor ov ie lates c ovo ieo,
+  wf_sig s -> no_quirks q -> late_names_ok s lates -> call_ok s c ->
+  functor_bind q s ctor ov ie lates c ovo ieo =
+  spec_outcome s ctor lates c (match ovo with Some b => b | None => ov end) (match ieo with Some b => b | None => ie end).
+Proof. exact functor_binds_effective_arguments. Qed.
+Print Assumptions C18_call_equiv.
+
+(* With the open finding (a later binding that stores the integer an attribute already shows is not
+   recorded) the same holds for every input that has no such binding ... *)
+Theorem C18_call_equiv_partial : forall q s ctor ov ie lates c ovo ieo,
+  wf_sig s -> late_names_ok s lates -> call_ok s c ->
+  (forall st, functor_ctor s ctor ov ie = Ok st -> lates_avoid_noop s st lates) ->
+  functor_bind q s ctor ov ie lates c ovo ieo =
+  spec_outcome s ctor lates c (match ovo with Some b => b | None => ov end) (match ieo with Some b => b | None => ie end).
+Proof. exact functor_binds_effective_arguments_partial. Qed.
+Print Assumptions C18_call_equiv_partial.
+
+(* ... and fails on one that has: def f(a, b=11); x = f.partial(5); x.rebind(b=11); x(b=7). *)
+Theorem C18_call_equiv_refuted : exists q s ctor lates c,
+  wf_sig s /\ late_names_ok s lates /\ call_ok s c /\
+  functor_bind q s ctor false false lates c None None <> spec_outcome s ctor lates c false false.
+Proof. exact noop_rebind_refutes. Qed.
+Print Assumptions C18_call_equiv_refuted.
